@@ -115,3 +115,24 @@ def coq_case(steps):
 def cases_file(cases):
     body = ';\n '.join(cases)
     return HEADER + f'Definition results : list bool := [\n {body}].\nEval vm_compute in (failing results).\n'
+
+
+# the same cases on the TRANSLATED source (Gen/HeapSrc.v, written by translate/gen_heap.py from the current sim.py)
+HEADER_SRC = HEADER + '''From KV Require Import Model.HeapSrcLib Gen.HeapSrc.
+Fixpoint heap_case_src (h : heap) (steps : list (hop * N * heap_view)) : bool :=
+  match steps with
+  | [] => true
+  | (HAlloc s, loc, v) :: r =>
+      match alloc_src h s with
+      | Some (l, h') => N.eqb l loc && heap_view_eqb (heap_view_of h') v && heap_case_src h' r
+      | None => false
+      end
+  | (HFree l, _, v) :: r =>
+      match free_src h l with Some h' => heap_view_eqb (heap_view_of h') v && heap_case_src h' r | None => false end
+  end.
+'''
+
+
+def cases_file_src(cases):
+    body = ';\n '.join(c.replace('heap_case hinit', 'heap_case_src hinit_src', 1) for c in cases)
+    return HEADER_SRC + f'Definition results : list bool := [\n {body}].\nEval vm_compute in (failing results).\n'
